@@ -7,6 +7,7 @@ accesses fail.
 """
 import errno
 import io
+import os as _os
 import posixpath
 
 
@@ -29,8 +30,8 @@ class SimFile(io.StringIO):
             self._tripped = True
             self._fs.fired(ft)
             self._fs.log.append(['read', self._path, 'fault:EIO'])
-            raise OSError(errno.EIO, 'Input/output error (injected)',
-                          self._path)
+            raise _err(OSError, errno.EIO, 'Input/output error (injected)',
+                       self._path)
         self._fs.log.append(['read', self._path])
         return io.StringIO.read(self, *a)
 
@@ -44,6 +45,12 @@ def hash_path(p):
 def os_stat_result(t):
     import os
     return os.stat_result(t)
+
+
+def _err(cls, code, msg, path):
+    e = cls(code, msg, path)
+    e.simfs = True            # raised by the simulated disk
+    return e
 
 
 class SeamGap(BaseException):
@@ -195,8 +202,8 @@ class SimOS(object):
         elif self.path._isdir(q):
             mode, size = _stat.S_IFDIR | 0o755, 4096
         else:
-            raise FileNotFoundError(errno.ENOENT, 'No such file or directory',
-                                    p)
+            raise _err(FileNotFoundError, errno.ENOENT,
+                       'No such file or directory', p)
         t = self._fs.mtimes.get(q, 1.0e9)
         return os_stat_result((mode, abs(hash_path(q)) % 10**9, 1, 1, 0, 0,
                                size, t, t, t))
@@ -216,8 +223,8 @@ class SimOS(object):
                            for f in self._fs.files if f.startswith(d)))
         self._fs.log.append(['listdir', d, len(names)])
         if not names:
-            raise FileNotFoundError(errno.ENOENT, 'No such file or directory',
-                                    p)
+            raise _err(FileNotFoundError, errno.ENOENT,
+                       'No such file or directory', p)
         return names
 
 
@@ -229,6 +236,8 @@ class SimFS(object):
         self.log = []
         self.path_map = []        # [(real prefix, simulated prefix)]
         self.mtimes = {}          # path -> modification time (default 1e9)
+        self.namespace = ['/sim', '/mnt/x']   # roots of the simulated disk
+        self.env_names = ['pgradd_DATA_DIR']
         self.faults = []          # list of fault dicts (the plan)
         self.fired_counts = {}
         self.os = SimOS(self)
@@ -239,7 +248,7 @@ class SimFS(object):
 
     def open(self, path, mode='r', *a, **kw):
         if any(c in mode for c in 'wax+'):
-            raise OSError(errno.EROFS, 'SimFS is read-only', path)
+            raise _err(OSError, errno.EROFS, 'SimFS is read-only', path)
         p = self.os.path.abspath(path)
         for ft in self.faults:
             if ft.get('fired') and not ft.get('sticky'):
@@ -265,16 +274,44 @@ class SimFS(object):
                     'EIO': errno.EIO}[ft['kind']]
             exc = {'ENOENT': FileNotFoundError,
                    'EACCES': PermissionError}.get(ft['kind'], OSError)
-            raise exc(code, 'injected ' + ft['kind'], p)
+            raise _err(exc, code, 'injected ' + ft['kind'], p)
         if p not in self.files:
             self.log.append(['open', p, 'ENOENT'])
-            raise FileNotFoundError(errno.ENOENT, 'No such file or directory',
-                                    p)
+            raise _err(FileNotFoundError, errno.ENOENT,
+                       'No such file or directory', p)
         self.log.append(['open', p])
         return SimFile(self, p, self.files[p])
 
+    # ------------------------------------------------------------ the seam
+
+    def simulated(self, path):
+        """The absolute simulated path if `path` lies in the simulated name
+        space (relative paths do: the simulated process has a simulated
+        current directory), else None."""
+        try:
+            p = path if isinstance(path, str) else _os.fspath(path)
+        except TypeError:
+            return None
+        if not isinstance(p, str):
+            return None
+        q = self.os.path.abspath(p)
+        for r in self.namespace:
+            if q == r or q.startswith(r + '/'):
+                return q
+        return None
+
     def install(self):
-        """Shadow the module globals.  Returns an undo function."""
+        """Two layers.  (1) The module globals `open` and `os` of
+        pgradd.GroupAdd.{Library,Scheme,DataDir} are shadowed: what the
+        package does today goes through here and is logged.  (2) While
+        installed, the process-wide entry points open / io.open / os.stat /
+        os.lstat / os.listdir / os.getcwd and the environment variables of
+        `env_names` answer from SimFS for paths in the simulated name space
+        and pass everything else through: a refactoring of the package that
+        reaches its files another way (io.open, pathlib, os.path functions
+        imported by name) still meets the simulated disk instead of failing
+        on the real one.  Returns an undo function."""
+        import builtins
         from pgradd.GroupAdd import Library, Scheme, DataDir
         saved = []
         for mod, names in ((Library, ('open', 'os')), (Scheme, ('open', 'os')),
@@ -283,11 +320,98 @@ class SimFS(object):
                 saved.append((mod, n, mod.__dict__.get(n, None),
                               n in mod.__dict__))
                 setattr(mod, n, self.open if n == 'open' else self.os)
+        fs = self
+        real_open, real_io_open = builtins.open, io.open
+        real_stat, real_lstat = _os.stat, _os.lstat
+        real_listdir, real_getcwd = _os.listdir, _os.getcwd
+
+        def g_open(file, *a, **kw):
+            q = fs.simulated(file) if not isinstance(file, int) else None
+            if q is None:
+                return real_open(file, *a, **kw)
+            mode = a[0] if a else kw.get('mode', 'r')
+            f = fs.open(q, mode)
+            if 'b' in mode:
+                return io.BytesIO(f.read().encode('utf-8'))
+            return f
+
+        def g_stat(path, *a, **kw):
+            q = fs.simulated(path) if not isinstance(path, int) else None
+            if q is None:
+                return real_stat(path, *a, **kw)
+            return fs.os.stat(q)
+
+        def g_lstat(path, *a, **kw):
+            q = fs.simulated(path)
+            if q is None:
+                return real_lstat(path, *a, **kw)
+            return fs.os.stat(q)
+
+        def g_listdir(path='.'):
+            q = fs.simulated(path) if not isinstance(path, int) else None
+            if q is None:
+                return real_listdir(path)
+            return fs.os.listdir(q)
+
+        def g_getcwd():
+            return fs.cwd
+
+        builtins.open, io.open = g_open, g_open
+        _os.stat, _os.lstat = g_stat, g_lstat
+        _os.listdir, _os.getcwd = g_listdir, g_getcwd
+        saved_env = dict((n, _os.environ.get(n)) for n in self.env_names)
+        self._sync_env()
+        global ACTIVE
+        prev_active = ACTIVE
+        ACTIVE = self
 
         def undo():
+            global ACTIVE
+            ACTIVE = prev_active
+            builtins.open, io.open = real_open, real_io_open
+            _os.stat, _os.lstat = real_stat, real_lstat
+            _os.listdir, _os.getcwd = real_listdir, real_getcwd
+            for n, v in saved_env.items():
+                if v is None:
+                    _os.environ.pop(n, None)
+                else:
+                    _os.environ[n] = v
             for mod, n, val, had in saved:
                 if had:
                     setattr(mod, n, val)
                 else:
                     delattr(mod, n)
         return undo
+
+    def _sync_env(self):
+        """The simulated values of `env_names` as real environment variables
+        (for code that reads os.environ without the shadowed module)."""
+        for n in self.env_names:
+            v = self.env.get(n)
+            if v is None:
+                _os.environ.pop(n, None)
+            else:
+                _os.environ[n] = v
+
+    def setenv(self, name, value):
+        if value is None:
+            self.env.pop(name, None)
+        else:
+            self.env[name] = value
+        if ACTIVE is self:
+            self._sync_env()
+
+
+ACTIVE = None
+
+
+def escaped_access(exc):
+    """True if `exc` is a file-system error about a simulated path that did
+    not come from SimFS: the code under test reached the real disk through
+    an entry point the seam does not cover."""
+    fs = ACTIVE
+    if fs is None or not isinstance(exc, OSError) or \
+            getattr(exc, 'simfs', False):
+        return False
+    name = getattr(exc, 'filename', None)
+    return isinstance(name, str) and fs.simulated(name) is not None
